@@ -381,8 +381,8 @@ def _meta(R, b, only):
     k = 0
     for mi, md in enumerate(METADATA):
         for ai, asm in enumerate(ASSEMBLIES):
-            for dest in ("root", "group"):
-                if dest == "group" and (mi + ai) % 3:
+            for dest in ("root", "group", "unordered"):
+                if dest in ("group", "unordered") and (mi + ai + (dest == "unordered")) % 3:
                     continue
                 k += 1
                 inner = {"b": b, "metadata": mi, "assembly": ai, "dest": dest}
@@ -395,10 +395,16 @@ def _meta(R, b, only):
                 R.add("traces")
                 R.cls("meta")
                 p = scratch.fresh()
-                uri = p if dest == "root" else p + "::/x/y"
+                uri = p + "::/x/y" if dest == "group" else p
                 try:
                     try:
-                        cooler.create_cooler(uri, bdf, pdf, metadata=md, assembly=asm, symmetric_upper=symm)
+                        if dest == "unordered":
+                            # the two-pass route: chunks in arbitrary order, small fan-in (metadata and assembly belong to the result)
+                            half = len(pdf) // 2
+                            cooler.create_cooler(uri, bdf, iter([pdf.iloc[half:], pdf.iloc[:half], pdf.iloc[0:0]]), metadata=md, assembly=asm,
+                                                 symmetric_upper=symm, ordered=False, max_merge=2, mergebuf=1)
+                        else:
+                            cooler.create_cooler(uri, bdf, pdf, metadata=md, assembly=asm, symmetric_upper=symm)
                         info = cooler.Cooler(uri).info
                     except Exception as e:
                         R.mismatch("create-raises:" + type(e).__name__, inner, f"{e!s:.300}")
